@@ -189,6 +189,8 @@ DICT_SHIFT_INV = [
 
 def _variant(build, label, ensures, loops=None, target="add_empty_mode_to_circuit_spec", replay=None, requires=()):
     props = ["C02", "C10"] if "Parameter" in label else ["C02"]
+    if target == "add_modes_to_circuit_spec":
+        props = props + ["C01"]        # Circuit.add shifts the added circuit's components with this function: the ordered product of C01 depends on it
     c = Contract(
         target=f"{F}:{target}",
         types={"circuit_spec": build, "mode": "int"},
@@ -318,5 +320,13 @@ AM_ELEMS += [
         "mode_shifted": f"{R}.mode == old({E}.mode) + mode", "same_parameter_object": f"same_ref({R}.loss, {E}.loss)", "argument_unchanged": f"{E}.mode == old({E}.mode)"},
         target="add_modes_to_circuit_spec"),
 ]
+# a group: its span moves with the rest, its content is the image of its own spec under the same function (recursion through the general callee
+# contract), its heralds (relative to the group's first mode) are kept
+AM_ELEMS.append(_variant(GROUP, "Group", {
+    "span_shifted": f"{R}.mode_1 == old({E}.mode_1) + mode and {R}.mode_2 == old({E}.mode_2) + mode",
+    "content_recursive": f"same_ref({R}.circuit_spec, add_modes_to_circuit_spec(old({E}.circuit_spec), mode))",
+    "heralds_kept": f"same_ref({R}.heralds, old({E}.heralds))",
+    "argument_unchanged": f"{E}.mode_1 == old({E}.mode_1) and {E}.mode_2 == old({E}.mode_2) and same_ref({E}.circuit_spec, old({E}.circuit_spec))",
+}, target="add_modes_to_circuit_spec"))
 CONTRACTS = AEM_ELEMS + AM_ELEMS
 REGISTRY_MODULES = ["vf.contracts.c_matrix", "vf.contracts.c_circuit_modes"]
